@@ -227,6 +227,55 @@ def run_C10(ctx):
                     ctx.fail("oracle", "C10 oracle: " + why, dict(kind="image", case=c[:6000], mutation=m, observed=a[:1500]))
         ctx.k_checks["oracle-recovered-entries-survive-cache-drain"] = (bad3 == 0, len(dcases))
         ctx.count("drain_cases", len(dcases))
+    # large records: the torn part alone can be far longer than any small constant (64 KiB,
+    # a read buffer): a last entry of 70-300 KB cut inside its payload, its checksum, one byte short
+    bcases = []
+    for j in range(ctx.scale(3, 12)):
+        size = rnd.choice([70000, 100000, 200000, 300000])
+        recs = 100000                       # the large record stays in the newest chunk
+        pre = ["A 1 %d x%02x" % (i, i) for i in range(rnd.randint(1, 3))]
+        n0 = len(pre)
+        big = "A 1 %d %s" % (n0, gen.hx(bytes((i * 31 + j) & 0xFF for i in range(size))))
+        bcases.append("SEQ 100000 1073741824 %d 1073741824 1 %d | %s" % (recs, rnd.choice(gen.CFG_RBUF), " ; ".join(gen.sync_ops(pre + [big]) + ["F 1", "I", "K"])))
+    bi = C.run_impl(bcases, ctx.wd, "bigimg")
+    gcases, gmeta = [], []
+    for c, a in zip(bcases, bi):
+        f = p_seq.fields(a)
+        if not f[-1].startswith("disk "):
+            continue
+        disk = parse_disk(f[-1])
+        fid, data = disk[-1]
+        rs = pydec.decode_all(data)
+        (_, o, l) = rs[-1]
+        if l < 60000:
+            continue
+        for cut in (o + 30, o + 66000, o + l // 2, o + l - 9, o + l - 1):
+            for trunc in (1, 0):
+                cfg = "100000 1073741824 4 1073741824 %d %d" % (trunc, rnd.choice(gen.CFG_RBUF))
+                gcases.append(img_case(cfg, disk[:-1] + [(fid, data[:cut])], "G ; R 0 3 ; A ; V 4000000000 1 ; F 1 ; I"))
+                gmeta.append(dict(cut=cut, trunc=trunc, record_at=o, record_len=l, complete_records=len(rs) - 1))
+    if gcases:
+        gi = C.run_impl(gcases, ctx.wd, "bigcut")
+        gm = C.run_model(gcases, ctx.wd, "bigcut")
+        core.compare(ctx, "recover-cuts-inside-large-records", gcases, gi, gm)
+        bad5 = 0
+        for c, m, a in zip(gcases, gmeta, gi):
+            f = p_seq.fields(a)
+            why = None
+            if "panic" in f:
+                why = "panic"
+            elif m["trunc"] == 1 and f[0] != "opened":
+                why = "open failed (%s) although truncation is enabled: a %d-byte record torn after %d bytes" % (f[0], m["record_len"], m["cut"] - m["record_at"])
+            elif m["trunc"] == 1 and any(x.startswith("err") for x in f[3:6]):
+                why = "writes after the recovery failed: " + " ; ".join(f[3:6])[:200]
+            elif m["trunc"] == 0 and not f[0].startswith("openerr"):
+                why = "truncation disabled and the tail is incomplete, but open answered " + f[0]
+            if why:
+                bad5 += 1
+                if bad5 <= 3:
+                    ctx.fail("oracle", "C10 oracle: " + why, dict(kind="image", case=c[:3000] + " ...", mutation=m, observed=a[:600]))
+        ctx.k_checks["oracle-large-torn-record"] = (bad5 == 0, len(gcases))
+        ctx.count("large_record_cuts", len(gcases))
     # the standalone Dump on the same damaged directories: every complete record is listed
     # with its file-local offset, a torn or zero tail gives exactly one error item, last in
     # its chunk, carrying the number of complete records before it
@@ -364,24 +413,42 @@ def run_C09(ctx):
     core.builds()
     rnd = ctx.rnd
     imgs = [im for im in make_images(ctx, ctx.scale(10, 80), ctx.scale(12, 30)) if len(im["disk"]) >= 2]
-    imgs = imgs[: ctx.scale(3, 40)]
-    cases, meta = [], []
+    imgs = imgs[: ctx.scale(3, 24)]
+    ncases_total, distinct, samples = 0, set(), []
+    sweep_ok, bad = True, 0
     for ii, im in enumerate(imgs):
+        # one image at a time: the sweep of one image is run and judged, then dropped
+        cases, meta = [], []
         disk = im["disk"]
         cfg = "100000 1073741824 4 1073741824 1 %d" % rnd.choice(gen.CFG_RBUF)
         for fi, (fid, data) in enumerate(disk):
-            full = ctx.thorough()
+            # all 255 replacement values: header and checksum bytes of every record of the first
+            # image (thorough tier); elsewhere the 8 single-bit flips, 0, 255 and in the thorough
+            # tier 12 more random values
+            hot = set()
+            if ctx.thorough() and ii == 0:
+                for (_, ro, rl) in im["recs"][fi][1]:
+                    hot |= set(range(ro, min(ro + 40, ro + rl))) | set(range(max(ro, ro + rl - 8), ro + rl))
             # quick tier: cap the work per file; all positions of small files, a spread sample of big ones
             allpos = range(len(data))
-            if not ctx.thorough() and len(data) > 400:
-                keep = set(range(0, 120)) | set(range(len(data) - 60, len(data))) | set(rnd.sample(range(len(data)), 220))
+            lim = ctx.scale(400, 1200)
+            if len(data) > lim:
+                # every case carries the whole directory: the work per file is capped in both tiers
+                keep = set(range(0, lim // 4)) | set(range(len(data) - lim // 8, len(data))) | set(rnd.sample(range(len(data)), lim // 2))
                 # always the first bytes of every record (tag, ids, length prefixes)
                 o = 0
                 for (_, ro, rl) in im["recs"][fi][1]:
                     keep |= set(range(ro, min(ro + 28, ro + rl)))
                 allpos = sorted(p for p in keep if p < len(data))
+            # memory budget: every case is the whole directory in hex
+            case_len = 2 * sum(len(d) for _, d in disk) + 200
+            budget = max(2000, int(ctx.scale(60e6, 400e6) / case_len / max(1, len(disk))))
+            per_pos = 22 if ctx.thorough() else 10
+            if len(allpos) * per_pos > budget:
+                allpos = sorted(rnd.sample(list(allpos), max(50, budget // per_pos)))
+                ctx.count("sweep_positions_subsampled")
             for pos in allpos:
-                vals = range(256) if full else ([data[pos] ^ (1 << b) for b in range(8)] + [0, 255])
+                vals = range(256) if pos in hot else ([data[pos] ^ (1 << b) for b in range(8)] + [0, 255] + ([rnd.randrange(256) for _ in range(12)] if ctx.thorough() else []))
                 for v in vals:
                     if v == data[pos]:
                         continue
@@ -401,51 +468,57 @@ def run_C09(ctx):
                 cases.append(img_case(cfg, d3, "G ; R 0 100000"))
                 meta.append(dict(img=im, kind="missing", file=fi, newest_cut=cut, disk=d3))
                 ctx.count("middle_chunk_removed_and_newest_torn")
-    impl = C.run_impl(cases, ctx.wd, "flips")
-    model = C.run_model(cases, ctx.wd, "flips")
-    core.compare(ctx, "recover-single-byte-sweep", cases, impl, model)
-    read_corruption(ctx)
-    bad = 0
-    for c, m, a in zip(cases, meta, impl):
-        f = p_seq.fields(a)
-        im = m["img"]
-        why, cls = None, None
-        if m["kind"] == "missing":
-            d2 = m.get("disk") or (im["disk"][: m["file"]] + im["disk"][m["file"] + 1:])
-            if "newest_cut" in m and m["file"] == len(im["disk"]) - 2:
-                # the chunk right before the torn newest file is gone: what remains is an intact
-                # older journal plus a record-less newest file whose name no longer fits
-                pass
-            if not f[0].startswith("openerr"):
-                why = "a middle chunk file is missing but open answered " + f[0]
-            elif parse_disk(f[1])[:-1] != d2[:-1]:
-                why = "a refused open modified a chunk file other than the newest"
-        else:
-            rk, off, rl, res = classify_flip(im, m["file"], m["pos"], m["alt"])
-            ctx.count("flip_%s_%s" % (rk, "newest" if m["newest"] else "older"))
-            d2 = im["disk"][: m["file"]] + [(im["disk"][m["file"]][0], m["alt"])] + im["disk"][m["file"] + 1:]
-            if "panic" in f:
-                why = "open panicked"
-            elif f[0] == "opened":
-                same = p_seq.state_of_stat(f[1]) == p_seq.state_of_stat(im["clean_state"]) and f[2] == im["clean_read"]
-                why = "an altered byte inside a complete record was absorbed: open succeeded" + (" with the original content" if same else " with different state or entries")
-                if res == "eof" and m["newest"]:
-                    cls = "F5-length-flip-newest-chunk-taken-for-torn-tail"
+        impl = C.run_impl(cases, ctx.wd, "flips")
+        model = C.run_model(cases, ctx.wd, "flips")
+        if core.compare(ctx, "recover-single-byte-sweep", cases, impl, model):
+            sweep_ok = False
+        for c, m, a in zip(cases, meta, impl):
+            f = p_seq.fields(a)
+            im = m["img"]
+            why, cls = None, None
+            if m["kind"] == "missing":
+                d2 = m.get("disk") or (im["disk"][: m["file"]] + im["disk"][m["file"] + 1:])
+                if "newest_cut" in m and m["file"] == len(im["disk"]) - 2:
+                    # the chunk right before the torn newest file is gone: what remains is an intact
+                    # older journal plus a record-less newest file whose name no longer fits
+                    pass
+                if not f[0].startswith("openerr"):
+                    why = "a middle chunk file is missing but open answered " + f[0]
+                elif parse_disk(f[1])[:-1] != d2[:-1]:
+                    why = "a refused open modified a chunk file other than the newest"
             else:
-                after = parse_disk(f[1])
-                nn = len(d2) - 1
-                if after[:nn] != d2[:nn]:
-                    why = "the refused open modified a chunk file other than the newest"
-                    if res == "eof" and not m["newest"]:
-                        cls = "F6-refused-open-truncates-older-chunk"
-        if why:
-            bad += 1
-            rp = dict(kind="image", case=c[:8000], mutation={k: v for k, v in m.items() if k not in ("img", "alt", "disk")}, observed=a[:600])
-            if cls:
-                rp["class"] = cls
-            if bad <= 2000:
-                ctx.fail("oracle", "C09 oracle: " + why, rp)
-    ctx.k_checks["oracle-corruption-reported"] = (not any(f["kind"] == "oracle" and "class" not in f["replay"] for f in ctx.failures), len(cases))
+                rk, off, rl, res = classify_flip(im, m["file"], m["pos"], m["alt"])
+                ctx.count("flip_%s_%s" % (rk, "newest" if m["newest"] else "older"))
+                d2 = im["disk"][: m["file"]] + [(im["disk"][m["file"]][0], m["alt"])] + im["disk"][m["file"] + 1:]
+                if "panic" in f:
+                    why = "open panicked"
+                elif f[0] == "opened":
+                    same = p_seq.state_of_stat(f[1]) == p_seq.state_of_stat(im["clean_state"]) and f[2] == im["clean_read"]
+                    why = "an altered byte inside a complete record was absorbed: open succeeded" + (" with the original content" if same else " with different state or entries")
+                    if res == "eof" and m["newest"]:
+                        cls = "F5-length-flip-newest-chunk-taken-for-torn-tail"
+                else:
+                    after = parse_disk(f[1])
+                    nn = len(d2) - 1
+                    if after[:nn] != d2[:nn]:
+                        why = "the refused open modified a chunk file other than the newest"
+                        if res == "eof" and not m["newest"]:
+                            cls = "F6-refused-open-truncates-older-chunk"
+            if why:
+                bad += 1
+                rp = dict(kind="image", case=c[:8000], mutation={k: v for k, v in m.items() if k not in ("img", "alt", "disk")}, observed=a[:600])
+                if cls:
+                    rp["class"] = cls
+                if bad <= 2000:
+                    ctx.fail("oracle", "C09 oracle: " + why, rp)
+
+        ncases_total += len(cases)
+        distinct |= set(hash(c) for c in cases)
+        if not samples:
+            samples = [cases[0][:800], cases[-1][:800]]
+    ctx.k_checks["recover-single-byte-sweep"] = (sweep_ok, ncases_total)
+    read_corruption(ctx)
+    ctx.k_checks["oracle-corruption-reported"] = (not any(f["kind"] == "oracle" and "class" not in f["replay"] for f in ctx.failures), ncases_total)
     # collapse known-class failures to one representative each (they are findings, not alarms)
     keep, seen = [], set()
     for fl in ctx.failures:
@@ -457,9 +530,9 @@ def run_C09(ctx):
             seen.add(cl)
         keep.append(fl)
     ctx.failures = keep
-    ctx.cov["evaluations"] = len(cases)
-    ctx.cov["distinct_nontrivial"] = len(set(cases))
-    ctx.cov["rule"] = "for each generated multi-chunk clean image: every byte position of every file x replacement values (all 255 for the first image and in thorough mode; the 8 single-bit flips, 0x00, 0xff and one random value otherwise), and every middle chunk removed; every case is non-trivial (a damaged image)"
+    ctx.cov["evaluations"] = ncases_total
+    ctx.cov["distinct_nontrivial"] = len(distinct)
+    ctx.cov["rule"] = "for each generated multi-chunk clean image: every byte position of every file x replacement values (the 8 single-bit flips, 0x00, 0xff; thorough tier: 12 more random values everywhere and all 255 values on the first 40 and last 8 bytes of every record of the first image; quick tier: a spread sample of positions in files above 400 bytes), swept image by image, and every middle chunk removed; every case is non-trivial (a damaged image)"
     ctx.cov["samples"] = [cases[0][:800], cases[-1][:800]]
     ctx.cov["images"] = len(imgs)
     return core.finish(ctx, proof)
